@@ -19,7 +19,8 @@ RULE = ('All ordered pairs of line lists of length <= 4 (quick) / <= 6 (thorough
         'Non-trivial: the two sides share at least one line and differ in at least one; distinct by content hash of the pair.')
 ASSUMPTIONS = [
     'diff.bare is loaded once per process through execute_script with the CLI fetcher (bare._fetch_include) and system prefix',
-    'a string input denotes the lines obtained by splitting on \\r?\\n (the documented line split); lines contain no CR or LF',
+    'a string input, and every element of an array input, denotes the lines obtained by splitting it on \\r?\\n (the documented line split); '
+    'a CR that is not followed by LF is part of its line',
     'nothing is asserted about minimality of the diff or about merging adjacent blocks of one type',
 ]
 
@@ -134,7 +135,7 @@ def plan(tier):
     return specs
 
 
-LINE = st.sampled_from(['a', 'b', 'c', '', 'x y', ' a', 'a ', 'é\U0001f600', '#', '\\'])
+LINE = st.sampled_from(['a', 'b', 'c', '', 'x y', ' a', 'a ', 'é\U0001f600', '#', '\\', 'a\r', '\r', 'x\ry', '  indented  ', '\ta'])
 
 
 @st.composite
